@@ -82,6 +82,7 @@ type VC struct {
 	knownLen        map[string]int // slice terms with a small constant length
 	readMemo        map[string]string
 	rootRets        []retInfo // the return sites of the function under contract (unmerged)
+	noSafety        bool      // contract option nosafety
 	freshRefs       map[string]bool
 	inlineAll       bool
 	usedContracts   map[string]bool
@@ -172,6 +173,10 @@ func (vc *VC) addObl(kind, fn, nameBase string, reach, goal string, pos token.Po
 	o := &Obligation{Name: name, Kind: kind, Fn: fn, Goal: full, UpTo: len(vc.lines), vc: vc, Props: vc.curProps}
 	if pos.IsValid() {
 		o.Pos = vc.eng.fset.Position(pos)
+	}
+	if vc.noSafety && kind == "call-pre" {
+		// nosafety contract: callee preconditions are assumed like the other safety conditions
+		return o
 	}
 	vc.obls = append(vc.obls, o)
 	return o
